@@ -79,7 +79,9 @@ Section Preserved.
     apply (pres_comp (fun st => fold_left (fun a i => fmt_istring_item i a) (is_items s) st) (fmt_loc (is_lquote s))); [apply pres_loc|].
     apply (pres_fold fmt_istring_item). intros i _. destruct i as [l|l].
     - apply pres_push.
-    - eapply pres_ext with (g := fun st => push [RBRACE] (push (l_data l) (push [LBRACE] st))); [reflexivity|]. repeat pres_step.
+    - cbn [fmt_istring_item]. apply (pres_comp (push [RBRACE])); [|apply pres_push].
+      apply (pres_comp (if emits_interpolation_trivia then fmt_loc l else push (l_data l))); [apply pres_push|].
+      destruct emits_interpolation_trivia; [apply pres_loc | apply pres_push].
   Qed.
 
   Lemma pres_expression : forall e, pres (format_expression e)
@@ -205,11 +207,10 @@ Section Preserved.
     - eapply pres_ext with (g := fun st => push [NL] (push_type (Some Comment) s st)); [reflexivity|]. repeat pres_step.
   Qed.
 
-  Lemma pres_open_block : forall o lp onl, pres (open_block o lp onl).
+  Lemma pres_open_block : forall o lp, pres (open_block o lp).
   Proof.
-    intros o lp onl. unfold open_block. destruct (o_braces o); [repeat pres_step|].
-    apply (pres_comp (push [NL])); [|apply pres_push]. apply (pres_comp (push (l_data lp))); [|apply pres_push].
-    destruct onl; [apply pres_id | apply pres_push].
+    intros o lp st H. unfold open_block.
+    destruct (o_braces o); [|destruct (emits_lbrace_trivia && last_is_nl st)]; repeat apply pres_push; exact H.
   Qed.
 
   Lemma pres_block_of_tokens : forall o lt lp inner rp, (forall t, In t inner -> pres (format_token o t)) ->
@@ -222,7 +223,7 @@ Section Preserved.
     apply (pres_comp (dedent_by (o_indent o))); [|apply Hded].
     apply (pres_comp (format_tokens_with (format_token o) (Some (l_trivia rp)) inner true)); [|apply pres_tokens_with; exact Hft].
     apply (pres_comp (indent_by (o_indent o))); [|apply Hind].
-    apply (pres_comp (open_block o lp (if lt && emits_lbrace_trivia then lbrace_on_new_line (l_trivia lp) else false))); [|apply pres_open_block].
+    apply (pres_comp (open_block o lp)); [|apply pres_open_block].
     apply (pres_if (lt && emits_lbrace_trivia)); [apply pres_lbrace_trivia | apply pres_id].
   Qed.
 
